@@ -1,5 +1,8 @@
 """Texts for MANIFEST.json."""
-HOOK_COMMITS = []
+HOOK_COMMITS = ["782740f"]
+
+# properties whose check is registered in MANIFEST.json
+CLAIMED = ["C15", "C18"]
 
 NOT_YET = "not claimed yet: model, theorems and correspondence check for this property are still under construction (see DESIGN.md section 7); no check is registered, so nothing is asserted about it"
 
@@ -13,3 +16,9 @@ LEVEL_TEXT = {
         "technique": "Coq proof (induction over histories, refinement to a history specification) + vm_compute correspondence against the Rust implementation",
     },
 }
+
+# Entries delivered with a property live in integration/Cxx.manifest.json.
+import glob as _glob, json as _json, os as _os
+for _p in sorted(_glob.glob(_os.path.join(_os.path.dirname(_os.path.abspath(__file__)), "integration", "C*.manifest.json"))):
+    _id = _os.path.basename(_p).split(".")[0]
+    LEVEL_TEXT.setdefault(_id, _json.load(open(_p)))
